@@ -27,12 +27,17 @@ type seqConn struct {
 	chunks      [][]byte
 	rdl         time.Time
 	failNext    bool // the next read delivers 2 bytes together with an I/O error
+	mute        bool // requests are swallowed: the line stays silent
 	log         [][]byte
+	nreads      int // every Read call, empty ones included
 }
 
 var errSeq = errors.New("injected i/o error")
 
 func (c *seqConn) Write(p []byte) (int, error) {
+	if c.mute {
+		return len(p), nil
+	}
 	rq, err := spec.DecodeReq(p, c.rtu)
 	if err != nil {
 		return len(p), nil
@@ -44,6 +49,7 @@ func (c *seqConn) Write(p []byte) (int, error) {
 }
 
 func (c *seqConn) Read(p []byte) (int, error) {
+	c.nreads++
 	vtime.Advance(10 * time.Microsecond)
 	if len(c.chunks) == 0 {
 		if c.serial {
@@ -80,10 +86,12 @@ func (c *seqConn) SetWriteDeadline(t time.Time) error { return nil }
 type recHooks struct {
 	writes, reads [][]byte
 	parses        [][]byte
+	nreads        int // every AfterEachRead call
 }
 
 func (h *recHooks) BeforeWrite(b []byte) { h.writes = append(h.writes, append([]byte(nil), b...)) }
 func (h *recHooks) AfterEachRead(b []byte, n int, err error) {
+	h.nreads++
 	if n > 0 {
 		h.reads = append(h.reads, append([]byte(nil), b...))
 	}
@@ -105,7 +113,7 @@ func sequenceCheck(res *ev.Result) (calls int64) {
 	exc := spec.Req{FC: 3, Unit: 1, Addr: 65535, Qty: 5} // leaves the address space: the reference device answers with exception 02
 	for _, kind := range []string{"tcp", "rtu-net", "serial", "serial-flusher"} {
 		rtu := kind != "tcp"
-		for _, first := range []string{"ok", "exception", "io-error-with-data"} {
+		for _, first := range []string{"ok", "exception", "io-error-with-data", "timeout", "timeout-then-late-reply"} {
 			conn := &seqConn{rtu: rtu, serial: kind == "serial" || kind == "serial-flusher", dev: spec.NewDevice(spec.ImageHash, spec.BitImage)}
 			h := &recHooks{}
 			vtime.ResetClock()
@@ -132,6 +140,8 @@ func sequenceCheck(res *ev.Result) (calls int64) {
 				seq[0] = exc
 			case "io-error-with-data":
 				conn.failNext = true
+			case "timeout", "timeout-then-late-reply":
+				conn.mute = true // the first call is abandoned after its total read timeout
 			}
 			var hexes []string
 			for n, r := range seq {
@@ -147,13 +157,47 @@ func sequenceCheck(res *ev.Result) (calls int64) {
 				hexes = append(hexes, fmt.Sprintf("%x", q.Bytes()))
 				w0, r0, p0 := len(h.writes), len(h.reads), len(h.parses)
 				t0 := len(conn.log)
-				resp, derr := cl.Do(context.Background(), q)
+				tn, hn := conn.nreads, h.nreads
+				resp, derr := lib.SafeDo(cl.Do, context.Background(), q)
 				if n == 0 {
+					if conn.mute {
+						conn.mute = false
+						if first == "timeout-then-late-reply" {
+							// the reply to the abandoned call arrives now, before the next call is made
+							dr, _ := spec.DecodeReq(q.Bytes(), rtu)
+							late := conn.dev.Handle(dr).Frame(rtu)
+							conn.chunks = append(conn.chunks, late)
+						}
+					}
 					continue
 				}
 				fail := func(k, msg string) {
 					res.Violate(ev.Violation{Check: "sequence", Kind: k, Attrs: map[string]any{"client": kind, "first": first},
 						Msg: fmt.Sprintf("%s client, second call after a first call that ended with %s: %s", kind, first, msg), Case: SeqCase{Kind: kind, First: first, Reqs: hexes}})
+				}
+				if pe, isPanic := derr.(*lib.PanicError); isPanic {
+					fail("panic", "the call panicked: "+pe.Value)
+					continue
+				}
+				// every transport read of this call was reported, whatever the call made of it
+				if dt, dh := conn.nreads-tn, h.nreads-hn; dt != dh {
+					fail("after-each-read-count", fmt.Sprintf("the transport was read %d times during the call, AfterEachRead ran %d times", dt, dh))
+					continue
+				}
+				if first == "timeout-then-late-reply" {
+					// what the call returns when a stale reply precedes its own is not this property's business: only that the
+					// hooks saw exactly what was read
+					var wire, hooked []byte
+					for _, c := range conn.log[t0:] {
+						wire = append(wire, c...)
+					}
+					for _, c := range h.reads[r0:] {
+						hooked = append(hooked, c...)
+					}
+					if string(wire) != string(hooked) {
+						fail("after-each-read-wrong", fmt.Sprintf("AfterEachRead saw %x, the transport delivered %x", hooked, wire))
+					}
+					continue
 				}
 				if derr != nil || lib.IsNil(resp) {
 					fail("later-call-fails", fmt.Sprintf("returned (%v, %v)", resp, derr))
